@@ -57,7 +57,8 @@ ASSUMPTIONS = [
 ]
 REQUIRED = ["grammar_reads", "rows_compared", "comments_compared", "ignored_field_warnings",
             "texts_with_the_writers_column_banner", "texts_with_block_sized_row_counts",
-            "population_files_with_undecodable_bytes",
+            "population_files_with_undecodable_bytes", "separators_other_than_blank_and_tab",
+            "extra_cols_as_one_shot_iterables", "options_given_by_position",
             "extra_cols_compared", "faults_injected", "faults_raised", "bytes_faults_injected",
             "sorted_reads", "population_reads", "src_text", "src_bytes", "src_path",
             "entry_read_swc", "entry_from_swc", "ids_beyond_2_53", "lone_cr_line_ends", "root_without_smallest_id",
@@ -103,7 +104,15 @@ def _spell(rng, v: float):
     return s, float(s)
 
 
+_EXOTIC_WS = [0]
+
+
 def _ws(rng):
+    if rng.random() < 0.02:
+        # other characters the line grammar's "whitespace" covers: form feed, vertical tab and the
+        # ASCII separators (they do not end a line of a text file)
+        _EXOTIC_WS[0] += 1
+        return str(rng.choice(["\x0c", " \x0b", "\x1c ", "\x1f", "\x1d\t"]))
     return str(rng.choice([" ", "  ", "\t", " \t ", "     "]))
 
 
@@ -230,7 +239,20 @@ def _read(entry, src, opts):
     with warnings.catch_warnings(record=True) as w:
         warnings.simplefilter("always")
         if entry == "read_swc":
-            df, cm = su.read_swc(src, **opts)
+            # the options by keyword, or the leading ones by position (extra_cols, fix_roots,
+            # sort_nodes, reset_index is the documented order), or a mix of both
+            _FLAG_SPELLINGS[0] += 1
+            form = _FLAG_SPELLINGS[0] % 4
+            o2 = dict(opts)
+            if form == 1:
+                df, cm = su.read_swc(src, o2.pop("extra_cols", None), **o2)
+                _POSITIONAL[0] += 1
+            elif form == 2:
+                df, cm = su.read_swc(src, o2.pop("extra_cols", None), o2.pop("fix_roots", False),
+                                     o2.pop("sort_nodes", False), o2.pop("reset_index", True), **o2)
+                _POSITIONAL[0] += 1
+            else:
+                df, cm = su.read_swc(src, **o2)
             tab = {c: df[c].tolist() for c in df.columns}
         else:
             t = Tree.from_swc(src, **opts)
@@ -273,6 +295,26 @@ def _flag(v: bool):
     return [bool(v), np.bool_(v), int(v), bool(v)][k]
 
 
+def _names_arg(names):
+    """The requested column names as callers hold them: a list, a tuple, or a one-shot iterable
+    (the parameter is documented as an iterable of names)."""
+    _FLAG_SPELLINGS[0] += 1
+    k = _FLAG_SPELLINGS[0] % 4
+    if k == 1:
+        return tuple(names)
+    if k == 2:
+        _ITER_ARGS[0] += 1
+        return (nm for nm in names)
+    if k == 3:
+        _ITER_ARGS[0] += 1
+        return iter(list(names))
+    return list(names)
+
+
+_ITER_ARGS = [0]
+_POSITIONAL = [0]
+
+
 def _opts_kw(o, doc):
     kw = {"reset_index": _flag(o["reset_index"])}
     if _FLAG_SPELLINGS[0] % 3 == 0:
@@ -280,7 +322,7 @@ def _opts_kw(o, doc):
     if o["kind"] != "text":
         kw["encoding"] = o["encoding"]
     if doc["ask"]:
-        kw["extra_cols"] = [f"e{k}" for k in range(doc["ask"])]
+        kw["extra_cols"] = _names_arg([f"e{k}" for k in range(doc["ask"])])
     return kw
 
 
@@ -668,6 +710,9 @@ def run(ctx):
     ctx.count("tap_parse_swc_return", rt.returns["parse_swc"])
     exits = rt.records["exit"]
     ctx.count("option_flags_spelled", _FLAG_SPELLINGS[0])
+    ctx.count("separators_other_than_blank_and_tab", _EXOTIC_WS[0])
+    ctx.count("extra_cols_as_one_shot_iterables", _ITER_ARGS[0])
+    ctx.count("options_given_by_position", _POSITIONAL[0])
     ctx.count("tap_exit_calls", len(exits))
     ctx.count("tap_exit_with_exception", sum(1 for p, r in exits if p))
     swallowed = sum(1 for p, r in exits if p and r)
